@@ -278,9 +278,20 @@ func CheckEnum(c EnumCase, seed uint64, nRandom int, otherNames []string, res *E
 	bad := []string{"", " ", "foo", "NOT_A_NAME", "1.5", "0x10", "1e3", "--1", "NaN", "A |", " | ", "| A", "1 2", "٣"}
 	if len(c.Consts) > 0 {
 		n := c.Consts[0].Name
-		bad = append(bad, strings.ToLower(n), n+"X", "X"+n, n+" ", " "+n, n+" |", n+" |  "+n, n+"|"+n, n+" , "+n)
+		// the name in the other letter case (names are case sensitive); for a name that is all lower-case already, upper-case
+		flipped := strings.ToLower(n)
+		if flipped == n {
+			flipped = strings.ToUpper(n)
+		}
+		bad = append(bad, n+"X", "X"+n, n+" ", " "+n, n+" |", n+" |  "+n, n+"|"+n, n+" , "+n)
+		if _, known := byName[flipped]; !known && flipped != n {
+			bad = append(bad, flipped)
+			if c.Bitmask {
+				bad = append(bad, n+" | "+flipped)
+			}
+		}
 		if c.Bitmask {
-			bad = append(bad, n+" | ", " | "+n, n+" | foo", n+" | "+strings.ToLower(n))
+			bad = append(bad, n+" | ", " | "+n, n+" | foo")
 		}
 	}
 	for _, o := range otherNames {
